@@ -71,6 +71,26 @@ Section AwaitFacts.
     c <= first_head_from poll h c < c + poll.
   Proof. intros h c Hc. unfold first_head_from. nia. Qed.
 
+  Lemma cancel_heads_some : forall h c hc,
+    cancel = Some c -> h <= c -> In hc (cancel_heads poll cancel h) ->
+    exists t, hc = Some t /\ c <= t <= c + poll /\ h < t.
+  Proof.
+    intros h c hc Hc Hh Hin. unfold cancel_heads in Hin. rewrite Hc in Hin.
+    destruct (h <? c) eqn:Hlt.
+    - pose proof (first_head_bounds h c ltac:(lia)) as Hb.
+      destruct (first_head_from poll h c =? c) eqn:Hf.
+      + destruct Hin as [<- | [<- | []]]; eexists; (split; [reflexivity|]); lia.
+      + destruct Hin as [<- | []]. eexists; (split; [reflexivity|]); lia.
+    - destruct Hin as [<- | []]. eexists; (split; [reflexivity|]); lia.
+  Qed.
+
+  Lemma cancel_heads_none : forall h hc,
+    cancel = None -> In hc (cancel_heads poll cancel h) -> hc = None.
+  Proof.
+    intros h hc Hc Hin. unfold cancel_heads in Hin. rewrite Hc in Hin.
+    destruct Hin as [<- | []]. reflexivity.
+  Qed.
+
   Lemma explains_cons_quiet : forall a m l h log r,
     quiet m -> h <= a ->
     (forall v, classify m = ACallback v -> explains l a (v :: log) r) ->
@@ -163,26 +183,18 @@ Section AwaitFacts.
           apply in_app_or in Hin as [Hin | Hin].
           { destruct (h =? D) eqn:HD; [|contradiction]. destruct Hin as [<- | []].
             apply explains_timeout_here; auto; try solve_cok. }
-          unfold cancel_head in Hin.
-          destruct (h <? c) eqn:Hlt.
-          -- pose proof (first_head_bounds h c ltac:(lia)) as Hb.
-             cbn [min_opt is_time] in Hin.
-             apply in_app_or in Hin as [Hin | Hin].
-             ++ match type of Hin with In _ (if ?b then _ else _) => destruct b eqn:He end;
-                  [|contradiction]. destruct Hin as [<- | []].
-                eapply explains_cancel_here; eauto; lia.
-             ++ match type of Hin with In _ (if ?b then _ else _) => destruct b eqn:He end;
-                  [|contradiction]. destruct Hin as [<- | []].
-                apply explains_timeout_here; auto; try solve_cok.
-          -- cbn [min_opt is_time] in Hin.
-             apply in_app_or in Hin as [Hin | Hin].
-             ++ match type of Hin with In _ (if ?b then _ else _) => destruct b eqn:He end;
-                  [|contradiction]. destruct Hin as [<- | []].
-                eapply explains_cancel_here; eauto; lia.
-             ++ match type of Hin with In _ (if ?b then _ else _) => destruct b eqn:He end;
-                  [|contradiction]. destruct Hin as [<- | []].
-                apply explains_timeout_here; auto; try solve_cok.
-      + cbn in Hin.
+          apply in_flat_map in Hin. destruct Hin as (hc0 & Hhc0 & Hin).
+          rewrite <- Hcancel in Hhc0.
+          destruct (cancel_heads_some h c hc0 Hcancel ltac:(lia) Hhc0) as (hc & -> & Hhcb & Hhhc).
+          cbn [min_opt is_time] in Hin.
+          apply in_app_or in Hin as [Hin | Hin].
+          -- match type of Hin with In _ (if ?b then _ else _) => destruct b eqn:He end;
+               [|contradiction]. destruct Hin as [<- | []].
+             eapply explains_cancel_here; eauto; lia.
+          -- match type of Hin with In _ (if ?b then _ else _) => destruct b eqn:He end;
+               [|contradiction]. destruct Hin as [<- | []].
+             apply explains_timeout_here; auto; try solve_cok.
+      + cbn in Hin. rewrite app_nil_r in Hin.
         apply in_app_or in Hin as [Hin | Hin].
         { destruct (h =? D) eqn:HD; [|contradiction]. destruct Hin as [<- | []].
           apply explains_timeout_here; auto; try solve_cok. }
@@ -222,13 +234,9 @@ Section AwaitFacts.
              rewrite <- Hcancel in Hin, IHa. eapply step_explained; [lia | solve_cok | first [exact Hall' | exact Hge'] | | exact Hin].
              intros log' r' Hr'. apply (IHa h); auto; try lia.
              all: try (intros c' Hc'; rewrite Hcancel in Hc'; injection Hc' as <-; lia).
-          -- unfold cancel_head in Hin.
-             assert (Hhc : exists hc, (if h <? c then Some (first_head_from poll h c) else Some (h + poll)) = Some hc
-                                      /\ c <= hc <= c + poll /\ h < hc).
-             { destruct (h <? c) eqn:Hlt.
-               - pose proof (first_head_bounds h c ltac:(lia)). eexists; split; [reflexivity|]. lia.
-               - eexists; split; [reflexivity|]. lia. }
-             destruct Hhc as (hc & Hhceq & Hhcb & Hhhc). rewrite Hhceq in Hin.
+          -- apply in_flat_map in Hin. destruct Hin as (hc0 & Hhc0 & Hin).
+             rewrite <- Hcancel in Hhc0.
+             destruct (cancel_heads_some h c hc0 Hcancel ltac:(lia) Hhc0) as (hc & -> & Hhcb & Hhhc).
              cbn [min_opt is_time] in Hin.
              apply in_app_or in Hin as [Hin | Hin].
              ++ match type of Hin with In _ (if ?b then _ else _) => destruct b eqn:He end;
@@ -254,7 +262,7 @@ Section AwaitFacts.
         * assert (a = h) by lia. subst a.
           rewrite <- Hcancel in Hin, IHa. eapply step_explained; [lia | solve_cok | first [exact Hall' | exact Hge'] | | exact Hin].
           intros log' r' Hr'. apply (IHa h); auto; try lia. all: try (intros c' Hc'; rewrite Hcancel in Hc'; discriminate).
-        * apply in_app_or in Hin as [Hin | Hin].
+        * rewrite app_nil_r in Hin. apply in_app_or in Hin as [Hin | Hin].
           -- match type of Hin with In _ (if ?b then _ else _) => destruct b eqn:He end;
                [|contradiction].
              rewrite <- Hcancel in Hin, IHa. eapply step_explained; [lia | solve_cok | first [exact Hall' | exact Hge'] | | exact Hin].
